@@ -1,11 +1,114 @@
-"""C08 — rules not implemented yet (fail closed)."""
-EXPLANATION = "not implemented"
-NOT_DECIDED = "everything"
+"""C08 — unit conversion preserves the physical quantity; defined units have true values."""
+from __future__ import annotations
+
+import ast
+
+from ..flow import enumerate_paths
+from ..source import norm, const_value, walk_no_nested
+from .common import is_name, params, returns_of, single_return
+from .config_rules import check_constants
+from .units_rules import check_array_to
+from .vector_rules import check_component_map, VECTOR
+
+EXPLANATION = (
+    "Static rules: (R1) Array.to and Vector.to never store through their receiver; (R2) Array.to is evaluated in a rational "
+    "algebra over symbols (values A, unit scales OLD, NEW) with pint's Quantity semantics: the returned values are "
+    "A*OLD/NEW, labelled NEW, not cast or rounded, and a conversion to an equal unit is the identity; the conversion goes "
+    "through pint's .to so incompatible dimensions raise; (R3) Vector.to maps .to(unit) with the same argument over every "
+    "component; (R4) every `define` string of configure_constants is parsed and its CGS value and dimension compared with "
+    "the IAU 2015 / CODATA catalogue (relative tolerance 1e-3); (R5) one pint registry in the package, in the cgs system; "
+    "Units.__call__ returns a Unit unchanged, refuses a Quantity and otherwise parses through that registry.")
+NOT_DECIDED = ("pint's parsing of equivalent spellings and its numeric factors; floating-point round-trip error; the "
+               "effect of a user configuration file that differs from config/defaults.py")
+TRUSTED = ("CPython ast", "pint semantics of Quantity.to / magnitude / units (S6)", "constants catalogue S3 (sa/specs/dims.py)")
+
+ARRAY = "core/array.py::Array"
 
 
-def not_implemented(run, tree):
-    run.rule("C08.R0", "stub")
-    run.unresolved("stub", "", "rules for C08 are not implemented yet")
+def r1_r2_array_to(run, tree):
+    run.rule("C08.R1", "Array.to: receiver not written; ratio old/new; result labelled new; identity shortcut; no lossy cast",
+             "D1 (rational algebra) + effect rule", "pint Quantity semantics", floor=5)
+    check_array_to(run, tree)
+    # the conversion itself goes through pint (so that incompatible dimensions raise)
+    fi = tree.method(tree.cls(ARRAY), "to")
+    uses_pint_to = any(isinstance(n, ast.Call) and isinstance(n.func, ast.Attribute) and n.func.attr == "to" and
+                       not is_name(n.func.value, params(fi)[0]) for n in walk_no_nested(fi.node))
+    run.ob(ARRAY + ".to::through-pint", uses_pint_to, fi.where(), "conversion factor %s" % (
+        "obtained from pint's Quantity.to (raises DimensionalityError for another dimension)" if uses_pint_to else
+        "not obtained through pint's .to"), "Array(1,'m').to('s') returns a number instead of raising")
 
 
-RULES = [not_implemented]
+def r3_vector_to(run, tree):
+    run.rule("C08.R3", "Vector.to converts every component with the same unit; receiver not written", "sibling agreement", "",
+             floor=1)
+    vi = tree.cls(VECTOR)
+    check_component_map(run, tree, tree.method(vi, "to"), VECTOR + ".to",
+                        lambda e, v, pn: norm(e) == "%s.to(%s)" % (v, pn[1]), "v.to(u) converts every component to u")
+
+
+def r4_constants(run, tree):
+    run.rule("C08.R4", "constants catalogue", "D2 + table", "S3: IAU 2015 nominal values / CODATA", floor=9)
+    check_constants(run, tree)
+
+
+def r5_registry(run, tree):
+    run.rule("C08.R5", "single pint registry (cgs); Units.__call__ contract", "who-may-call + path rule", "", floor=4)
+    sites = []
+    for fi in tree.all_functions():
+        for n in walk_no_nested(fi.node):
+            if isinstance(n, ast.Call) and tree.dotted(fi.module, n.func) in ("pint.UnitRegistry", "pint.registry.UnitRegistry"):
+                sites.append((fi, n))
+    for mi in tree.modules.values():
+        for st in mi.tree.body:
+            for n in ast.walk(st) if not isinstance(st, (ast.FunctionDef, ast.ClassDef)) else []:
+                if isinstance(n, ast.Call) and tree.dotted(mi, n.func) in ("pint.UnitRegistry",):
+                    sites.append((None, n))
+    ok = len(sites) == 1 and sites[0][0] is not None and sites[0][0].qual == "units/units.py::Units.__init__"
+    run.ob("units/units.py::UnitRegistry-construction", ok, sites[0][0].where(sites[0][1]) if sites and sites[0][0] else "units/units.py",
+           "%d registry constructions: %s" % (len(sites), [s[0].qual if s[0] else "module level" for s in sites]),
+           "units from two registries never compare equal and cannot be converted into each other")
+    if sites:
+        kws = {k.arg: const_value(k.value) for k in sites[0][1].keywords}
+        run.ob("units/units.py::UnitRegistry-system", kws.get("system") == "cgs", sites[0][0].where(sites[0][1]) if sites[0][0] else "",
+               "registry system = %r" % kws.get("system"), "base-unit conversions (to_base_units, G as Gaussian) change meaning")
+    # exactly one Units() instance at module level, exported as `units`
+    mi = tree.module("units/units.py")
+    inst = [st for st in mi.tree.body if isinstance(st, ast.Assign) and isinstance(st.value, ast.Call) and norm(st.value.func) == "Units"]
+    run.ob("units/units.py::single-instance", len(inst) == 1 and is_name(inst[0].targets[0], "units"), "units/units.py",
+           "%d module-level Units() instances" % len(inst), "osyris.units and the units used by Array differ")
+    # configure_constants is applied to that registry
+    ui = tree.func("units/units.py::Units.__init__")
+    cfg = any(isinstance(n, ast.Call) and isinstance(n.func, ast.Attribute) and n.func.attr == "configure_constants"
+              and n.args and norm(n.args[0]) == "%s._ureg" % params(ui)[0] for n in walk_no_nested(ui.node))
+    run.ob("units/units.py::Units.__init__::constants-defined", cfg, ui.where(), "configure_constants(self._ureg) %s" % (
+        "called" if cfg else "not called"), "M_sun, R_sun, ... undefined")
+    # __call__ contract
+    fi = tree.func("units/units.py::Units.__call__")
+    run.analysed(fi)
+    pn = params(fi)
+    verdicts = {}
+    for path in enumerate_paths(fi.node.body):
+        kind = None
+        for it in path:
+            if it[0] == "test" and isinstance(it[1], ast.Call) and is_name(it[1].func, "isinstance") and is_name(it[1].args[0], pn[1]):
+                d = tree.dotted(fi.module, it[1].args[1])
+                if it[2] and d in ("pint.Quantity", "pint.Unit"):
+                    kind = d.split(".")[1]
+        ex = path[-1]
+        if kind is None:
+            kind = "other"
+        if ex[1] == "raise":
+            verdicts.setdefault(kind, []).append("raise")
+        elif ex[1] == "return" and ex[2].value is not None:
+            verdicts.setdefault(kind, []).append(norm(ex[2].value))
+        else:
+            verdicts.setdefault(kind, []).append("None")
+    run.ob("units/units.py::Units.__call__[Quantity]", verdicts.get("Quantity") == ["raise"], fi.where(),
+           "a Quantity argument -> %s" % verdicts.get("Quantity"), "units(3*m) silently drops the magnitude")
+    run.ob("units/units.py::Units.__call__[Unit]", verdicts.get("Unit") == [pn[1]], fi.where(),
+           "a Unit argument -> %s" % verdicts.get("Unit"), "a unit object is re-parsed or replaced")
+    run.ob("units/units.py::Units.__call__[str]", verdicts.get("other") == ["%s._ureg(%s).units" % (pn[0], pn[1])], fi.where(),
+           "any other argument -> %s" % verdicts.get("other"), "equivalent spellings parsed by different registries")
+
+
+RULES = [r1_r2_array_to, r3_vector_to, r4_constants, r5_registry]
